@@ -241,7 +241,9 @@ def main():
             assumptions=props.ASSUMPTIONS.get(prop, []),
             wall_s=round(wall, 2), violations=len(remaining),
         )
-        evdir = os.environ.get("VERIF_EVIDENCE_DIR", os.path.join(VERIF, "evidence"))
+        # development runs (lean gate skipped) never overwrite the registered evidence
+        default_ev = os.path.join(VERIF, "evidence") if not args.no_lean else "/tmp/verif-evidence-dev"
+        evdir = os.environ.get("VERIF_EVIDENCE_DIR", default_ev)
         os.makedirs(evdir, exist_ok=True)
         json.dump(ev, open(os.path.join(evdir, prop + ".json"), "w"), indent=1)
         if violation:
